@@ -1,4 +1,5 @@
 import CwPlus.Lemmas.Cw3Fixed
+import CwPlus.Lemmas.Cw3FixedAt
 /-!
 # C03 (cw3-fixed part) — a proposal's status equals the outcome its ballots imply
 
@@ -11,10 +12,14 @@ stricter than the documented rule, early decisions sound and complete) is proper
 in every query, and to admit Execute and Close.  All theorems hold for every accepted
 instantiation and every history (`Reachable fuel w`).
 
-The cw3-flex part of C03 is pending; it will reuse `Lemmas/Cw3Core.lean`.
+The connection to the EXACT documented rule (`status_eq_exact_outcome`, `status_exact_outcome_within_one`)
+and the justification of a stored Rejected (`rejected_justified`, `rejected_when_stored`) combine the
+above with the theorems of `Props/C04.lean` through `Lemmas/Cw3Status.lean`.
+
+The cw3-flex part of C03 is `Props/C03Flex.lean`.
 -/
 namespace CwPlus.Props.C03
-open CwPlus CwPlus.Cw3 CwPlus.Cw3Core CwPlus.Cw3Fixed
+open CwPlus CwPlus.Cw3 CwPlus.Cw3Core CwPlus.Cw3Fixed CwPlus.Props
 
 /-- The tally of a proposal as implied by a ballot map: stored `Open`, the proposal's threshold,
 total weight and expiry, and per option the sum of the ballots' weights. -/
@@ -255,8 +260,8 @@ The following shows that the sticky status never disagrees with the ballots: on 
 blocks never go back, for a proposal stored Passed the library decision on the tally recomputed
 from the *current* ballots is Passed at the current and at every later block.  This needs
 monotonicity of `votes_needed` in the weight (proved here directly, `vn_mono`; C04 has the full
-arithmetic).  (The analogous statement for a stored Rejected needs C04's complement lemma and is
-not claimed here.) -/
+arithmetic).  The analogous statement for a stored Rejected is `rejected_justified` below (it needs
+C04's complement lemma, through `Lemmas/Cw3Status.lean`). -/
 
 theorem castU64_of_le {n : Nat} (h : n ≤ U64_MAX) : castU64 n = n := by
   unfold castU64 U64_MAX at *; omega
@@ -518,6 +523,114 @@ theorem executable_implies_outcome_passed {fuel : Nat} {w : World} {b : Block} (
   · exact ⟨p, hp, passed_justified hr hp hs hb⟩
   · exact ⟨p, hp, hout⟩
 
+/-! ## the status is the EXACT documented rule (C03 × C04) -/
+
+theorem ballotTally_eq_openT {p : Proposal} {bs : AMap Addr Ballot} (h : p.votes = tallyOf bs) :
+    ballotTally p bs = openT p := by
+  simp [ballotTally, openT, h]
+
+/-- The premise of the threshold arithmetic (C04) holds for the ballots of every proposal of every
+reachable state: the recorded ballots weigh at most the total (C06 `tally_le_total`), the total is a
+`u64`, the threshold was validated for this total. -/
+theorem premise_ballotTally {fuel : Nat} {w : World} (hr : Reachable fuel w) {id : Nat} {p : Proposal}
+    (hp : w.ms.core.proposals.get? id = some p) : C04.Premise (ballotTally p (ballotsOf w.ms.core id)) := by
+  have hi := reachable_inv hr
+  rw [ballotTally_eq_openT (hi.wf.tally id p hp)]
+  exact premise_of_inv hi hp
+
+/-- C03 "Passed exactly when the Yes weight is positive and certain to satisfy the configured count,
+percentage or quorum rule, Rejected only when it expired without passing or can no longer pass, Open
+otherwise" — against the EXACT rule, for thresholds / quorums written with at most 9 decimals.
+For every reachable state, every proposal stored Open and every query block, the query answers, and
+the status it reports is
+* Passed exactly when the recorded Yes weight is positive and the documented rule (`C04.exactPasses`:
+  `yes ≥ k`; `yes/(total−abstain) ≥ pct`; `cast/total ≥ quorum ∧ yes/(cast−abstain) ≥ threshold`, all in
+  cross-multiplied integer arithmetic) holds for EVERY completion of the outstanding votes — after
+  expiry: for the recorded ballots themselves;
+* Rejected only if the proposal has expired and the recorded ballots fail the rule, or it has not
+  expired and no completion of the outstanding votes satisfies it;
+* Open otherwise, and only before expiry.
+(Stored Passed / Rejected / Executed are reported as stored: `status_eq_outcome`; they are justified by
+`passed_justified` / `rejected_justified`.) -/
+theorem status_eq_exact_outcome {fuel : Nat} {w : World} (hr : Reachable fuel w) {id : Nat} {p : Proposal}
+    (hp : w.ms.core.proposals.get? id = some p) (ho : p.status = .open) (h9 : C04.nineDecimals p.threshold) (blk : Block) :
+    ∃ st, (Cw3Fixed.queryProposal w.ms blk id).map (·.status) = .ok st ∧
+      (st = .passed ↔ 0 < sumK .yes (ballotsOf w.ms.core id) ∧
+        CertainBy C04.exactPasses p.threshold p.totalWeight (tallyOf (ballotsOf w.ms.core id)) (p.expires.isExpired blk)) ∧
+      (st = .rejected →
+        HopelessBy C04.exactPasses p.threshold p.totalWeight (tallyOf (ballotsOf w.ms.core id)) (p.expires.isExpired blk)) ∧
+      (st = .open → p.expires.isExpired blk = false) ∧
+      (st = .open ∨ st = .passed ∨ st = .rejected) := by
+  rw [status_eq_outcome hr hp, if_pos ho]
+  exact exact_outcome9 (t := ballotTally p (ballotsOf w.ms.core id)) rfl (premise_ballotTally hr hp) h9 blk
+
+/-- The same for thresholds with up to 18 digits, where the library floors once before it takes the
+ceiling: the reported status is never stricter than the exact rule and at most one vote more
+permissive — exact-certain ⇒ Passed ⇒ certain with one vote of slack on each percentage requirement
+(`C04.laxPasses`); a reported Rejected still excludes, in exact arithmetic, the recorded ballots (after
+expiry) resp. every completion (before). -/
+theorem status_exact_outcome_within_one {fuel : Nat} {w : World} (hr : Reachable fuel w) {id : Nat} {p : Proposal}
+    (hp : w.ms.core.proposals.get? id = some p) (ho : p.status = .open) (blk : Block) :
+    ∃ st, (Cw3Fixed.queryProposal w.ms blk id).map (·.status) = .ok st ∧
+      (CertainBy C04.exactPasses p.threshold p.totalWeight (tallyOf (ballotsOf w.ms.core id)) (p.expires.isExpired blk) →
+        st = .passed) ∧
+      (st = .passed → 0 < sumK .yes (ballotsOf w.ms.core id) ∧
+        CertainBy C04.laxPasses p.threshold p.totalWeight (tallyOf (ballotsOf w.ms.core id)) (p.expires.isExpired blk)) ∧
+      (st = .rejected →
+        HopelessBy C04.exactPasses p.threshold p.totalWeight (tallyOf (ballotsOf w.ms.core id)) (p.expires.isExpired blk)) ∧
+      (st = .open → p.expires.isExpired blk = false) ∧
+      (st = .open ∨ st = .passed ∨ st = .rejected) := by
+  rw [status_eq_outcome hr hp, if_pos ho]
+  exact exact_outcome18 (t := ballotTally p (ballotsOf w.ms.core id)) rfl (premise_ballotTally hr hp) blk
+
+/-! ## a stored Rejected is justified by the recorded ballots — when stored and at every later block -/
+
+/-- On histories whose blocks never go back every stored Passed / Rejected is backed by the recorded
+tally at the block of the last operation and at every later block (`Cw3Core.DecidedOk`). -/
+theorem reachableAt_decided {fuel : Nat} {w : World} {b : Block} (h : ReachableAt fuel w b) :
+    Inv w.ms ∧ AllP (fun _ p => DecidedOk b p) w.ms.core := by
+  refine reachableAt_inv (fun b s => Inv s ∧ AllP (fun _ p => DecidedOk b p) s.core) ?_ ?_ ?_ h
+  · intro b b2 s hb ⟨hi, ha⟩
+    exact ⟨hi, fun id p hp => decidedOk_mono hb (ha id p hp)⟩
+  · intro b s snd m s' out ⟨hi, ha⟩ he
+    exact ⟨execute_inv hi he, allP_step hi.wf (fun _ _ _ hold hs => decidedOk_step hold hs) ha (execute_coreStep he)⟩
+  · intro m s b hi
+    exact ⟨instantiate_inv hi, by rw [instantiate_core hi]; exact allP_empty _⟩
+
+/-- C03 "Rejected only when it expired without passing or can no longer pass", sticky case (mirror of
+`passed_justified`): on every history whose blocks never go back, for a proposal stored Rejected the
+outcome implied by its *currently recorded* ballots is Rejected at the block of the last operation and
+at every later block `b'` — so the ballots added to a Rejected proposal before it expires and the
+passage of time never contradict the stored status — and at each such block either the proposal has
+expired and the recorded ballots fail the rule, or it has not and no completion of the outstanding
+votes can pass (`C04.rejected_sound`); both against the library's rule and against the exact rule. -/
+theorem rejected_justified {fuel : Nat} {w : World} {b : Block} (hr : ReachableAt fuel w b) {id : Nat} {p : Proposal}
+    (hp : w.ms.core.proposals.get? id = some p) (hs : p.status = .rejected) {b' : Block} (hb : blockLe b b') :
+    Outcome p (ballotsOf w.ms.core id) b' = .ok .rejected ∧
+    HopelessBy C04.libPasses p.threshold p.totalWeight (tallyOf (ballotsOf w.ms.core id)) (p.expires.isExpired b') ∧
+    HopelessBy C04.exactPasses p.threshold p.totalWeight (tallyOf (ballotsOf w.ms.core id)) (p.expires.isExpired b') := by
+  obtain ⟨hi, ha⟩ := reachableAt_decided hr
+  have hprem := premise_of_inv hi hp
+  have h := (ha id p hp hprem).2 hs b' hb
+  have e := ballotTally_eq_openT (hi.wf.tally id p hp)
+  have hout : Outcome p (ballotsOf w.ms.core id) b' = .ok .rejected := by
+    unfold Outcome; rw [e]; exact h
+  refine ⟨hout, ?_⟩
+  have := rejected_hopeless (t := ballotTally p (ballotsOf w.ms.core id)) rfl (by rw [e]; exact hprem) hout
+  exact this
+
+/-- … and at the moment it is stored: whenever a handler call (Propose, Vote or Close, top-level or
+re-entrant) at block `b` leaves a proposal stored Rejected that was not stored Rejected before, then at
+`b` either the proposal has expired and its tally fails the rule, or no completion of the then
+outstanding votes can pass. -/
+theorem rejected_when_stored {s s' : State} {b : Block} {snd : Addr} {m : ExecMsg} {out : List Msg} (hi : Inv s)
+    (h : execute s b snd m = .ok (s', out)) {id : Nat} {p' : Proposal} (hp' : s'.core.proposals.get? id = some p')
+    (hs : p'.status = .rejected) (hnew : ∀ p, s.core.proposals.get? id = some p → p.status ≠ .rejected) :
+    HopelessBy C04.libPasses p'.threshold p'.totalWeight p'.votes (p'.expires.isExpired b) ∧
+    HopelessBy C04.exactPasses p'.threshold p'.totalWeight p'.votes (p'.expires.isExpired b) := by
+  have hst := propStep_stores_rejected (coreStep_prop hi.wf (execute_coreStep h) hp') hs hnew
+  exact rejected_hopeless (t := openT p') rfl (premise_of_inv (execute_inv hi h) hp') hst
+
 /-! ## non-vacuity -/
 
 /-- voters a:1, b:1, z:0; 51 % of the (non-abstaining) total -/
@@ -550,5 +663,56 @@ example : ReachableAt 10 (run 10 exWorld exPassOps) ⟨101, 1005⟩ :=
       (ReachableAt.init (m := exInst) "ms" [] true exBlk rfl) ⟨Nat.le_refl _, Nat.le_refl _⟩)
     ⟨by decide, by decide⟩
 example : ((run 10 exWorld exPassOps).ms.core.proposals.get? 1).map (·.status) = some .passed := by decide
+
+/-! ### non-vacuity of the exact-rule and Rejected statements -/
+
+/-- voters a:3, b:3, c:2, d:1 (total 9); quorum 40 %, threshold 60 % (both 9-decimal) -/
+def exqInst : InstMsg :=
+  { voters := [(⟨true, "a"⟩, 3), (⟨true, "b"⟩, 3), (⟨true, "c"⟩, 2), (⟨true, "d"⟩, 1)],
+    threshold := .thresholdQuorum 600000000000000000 400000000000000000, maxVotingPeriod := .height 10 }
+def exqState : State := match instantiate exqInst with | .ok s => s | .error _ => default
+def exqWorld : World := World.init exqState "ms" [] true
+/-- a proposes (3 yes), c votes no (2): 5 of 9 cast; proposal 2: a proposes, b and c vote no, then d yes -/
+def exqOps : List Op :=
+  [⟨exBlk, .exec "a" (.propose "t" "d" [] none)⟩, ⟨exBlk, .exec "c" (.vote 1 .no)⟩,
+   ⟨⟨101, 1005⟩, .exec "a" (.propose "t2" "d" [] none)⟩, ⟨⟨101, 1005⟩, .exec "b" (.vote 2 .no)⟩,
+   ⟨⟨102, 1010⟩, .exec "c" (.vote 2 .no)⟩, ⟨⟨102, 1010⟩, .exec "d" (.vote 2 .yes)⟩]
+
+example : instantiate exqInst = .ok exqState := rfl
+example : C04.nineDecimals exqInst.threshold := ⟨⟨600000000, by decide⟩, ⟨400000000, by decide⟩⟩
+example : Reachable 10 (run 10 exqWorld exqOps) := ⟨exqInst, exqState, "ms", [], true, exqOps, rfl, rfl⟩
+/-- proposal 1 is stored Open with ballots 3 yes / 2 no: reported Open while voting (b:3 + d:1 could
+still vote no: 3/9 < 60 %), Passed once expired (3/5 = 60 % of the opinions cast, 5/9 ≥ 40 % quorum) -/
+example : ((run 10 exqWorld exqOps).ms.core.proposals.get? 1).map (fun p => (p.status, p.votes)) = some (.open, ⟨3, 2, 0, 0⟩) ∧
+    ((Cw3Fixed.queryProposal (run 10 exqWorld exqOps).ms ⟨102, 1010⟩ 1).toOption.map (·.status)) = some .open ∧
+    ((Cw3Fixed.queryProposal (run 10 exqWorld exqOps).ms ⟨110, 1010⟩ 1).toOption.map (·.status)) = some .passed ∧
+    C04.exactPasses exqInst.threshold 9 ⟨3, 2, 0, 0⟩ = true ∧
+    C04.exactPasses exqInst.threshold 9 (C04.plus ⟨3, 2, 0, 0⟩ ⟨0, 4, 0, 0⟩) = false := by decide
+
+/-- the history as a history with non-decreasing blocks -/
+theorem exq_reachableAt : ReachableAt 10 (run 10 exqWorld exqOps) ⟨102, 1010⟩ := by
+  have h0 : ReachableAt 10 exqWorld exBlk := ReachableAt.init (m := exqInst) "ms" [] true exBlk rfl
+  have h1 := ReachableAt.step ⟨exBlk, .exec "a" (.propose "t" "d" [] none)⟩ h0 ⟨Nat.le_refl _, Nat.le_refl _⟩
+  have h2 := ReachableAt.step ⟨exBlk, .exec "c" (.vote 1 .no)⟩ h1 ⟨Nat.le_refl _, Nat.le_refl _⟩
+  have h3 := ReachableAt.step ⟨⟨101, 1005⟩, .exec "a" (.propose "t2" "d" [] none)⟩ h2 ⟨by decide, by decide⟩
+  have h4 := ReachableAt.step ⟨⟨101, 1005⟩, .exec "b" (.vote 2 .no)⟩ h3 ⟨Nat.le_refl _, Nat.le_refl _⟩
+  have h5 := ReachableAt.step ⟨⟨102, 1010⟩, .exec "c" (.vote 2 .no)⟩ h4 ⟨by decide, by decide⟩
+  exact ReachableAt.step ⟨⟨102, 1010⟩, .exec "d" (.vote 2 .yes)⟩ h5 ⟨Nat.le_refl _, Nat.le_refl _⟩
+
+/-- proposal 2 was voted down early by c (3 yes / 5 no of 9: even d's yes cannot reach 60 %), is stored
+Rejected, and d's later Yes ballot is recorded without changing that -/
+example : ((run 10 exqWorld exqOps).ms.core.proposals.get? 2).map (fun p => (p.status, p.votes)) = some (.rejected, ⟨4, 5, 0, 0⟩) := by
+  decide
+
+/-- non-vacuity of `rejected_when_stored`: c's No (the fifth operation, block 102) is the call that stores
+proposal 2 as Rejected — Open before, Rejected after, not yet expired: no completion can pass -/
+example :
+    let s := (run 10 exqWorld (exqOps.take 4)).ms
+    ((s.core.proposals.get? 2).map (·.status)) = some .open ∧
+    ((execute s ⟨102, 1010⟩ "c" (.vote 2 .no)).toOption.map fun r => (r.1.core.proposals.get? 2).map (·.status))
+      = some (some .rejected) ∧
+    (Expiration.atHeight 111).isExpired ⟨102, 1010⟩ = false ∧
+    C04.libPasses exqInst.threshold 9 (C04.plus ⟨3, 5, 0, 0⟩ ⟨1, 0, 0, 0⟩) = false := by
+  decide
 
 end CwPlus.Props.C03
